@@ -355,7 +355,7 @@ func rgswAlgScenarios(tier string) []engine.Scenario {
 			for lq := 0; lq < len(sh.q); lq++ {
 				for lp := -1; lp < np; lp++ {
 					for _, pw2 := range []int{0, 7, 16} {
-						e := epConfig{sh, np, lq, lp, pw2, true}
+						e := epConfig{sh, np, lq, lp, pw2, true, false}
 						scs = append(scs, rgswEncScenario(e))
 						if lq == len(sh.q)-1 && (lp == np-1 || tier == "thorough") && pw2 != 16 {
 							scs = append(scs, rgswAlgScenario(e))
@@ -368,8 +368,8 @@ func rgswAlgScenarios(tier string) []engine.Scenario {
 	// a chain whose first prime has fewer base-two digits than the second (NoiseGadgetCiphertext sums rows into digit row 0)
 	inc := shape{"q2inc", 4, []uint64{nttPrime(4, 1<<30, true, 0), nttPrime(4, 1<<45, true, 0)}, shapes(4)[0].p}
 	for _, pw2 := range []int{0, 7} {
-		scs = append(scs, rgswEncScenario(epConfig{inc, 1, 1, 0, pw2, true}))
-		scs = append(scs, rgswEncScenario(epConfig{inc, 0, 1, -1, pw2, true}))
+		scs = append(scs, rgswEncScenario(epConfig{inc, 1, 1, 0, pw2, true, false}))
+		scs = append(scs, rgswEncScenario(epConfig{inc, 0, 1, -1, pw2, true, false}))
 	}
 	return scs
 }
